@@ -166,6 +166,16 @@ def run(ctx):
     K.check_redecode_modes(ctx, f)
 
     check_roa_limits(ctx, f)
+    check_prefix_family_limits(ctx, f)
+    K.check_serial_start(ctx, f)
+    # which time form is written: only encode_varied chooses (by year); the manifest profile fixes GeneralizedTime
+    for nm, want in (("encode_utc_time", ["repository::x509::Time::encode_varied"]),
+                     ("encode_generalized_time", ["repository::manifest::ManifestContent::encode_ref", "repository::x509::Time::encode_varied"])):
+        got = sorted({root_fn(f, c.body.name) for c in calls_to(f, lambda c, nm=nm: c.res == "repository::x509::Time::" + nm)
+                      if not c.body.is_cleanup(c.bb)})
+        ctx.ob("R-SIB", "Time::%s-callers" % nm, got == want,
+               "Time::%s is used only by %s — every other encoder picks the form by year through encode_varied, as the decoders expect"
+               % (nm, ", ".join(short(w) for w in want)), detail=got)
 
     # ---- C05.b pivots -----------------------------------------------------------------------
     K.check_time_pivots(ctx, f)
@@ -259,4 +269,32 @@ def check_roa_limits(ctx, f):
     for key, sel, spec, text in rows:
         ok, det = OL.decide_table(b, K.sym_of(b), names, spec, label, select=sel)
         ctx.ob("R-REG", "RoaIpAddress::skip_opt_in:%s" % key, ok, "ROA address %s (on every ordering of the three numbers)" % text,
+               where=b.loc, detail=det)
+
+
+def check_prefix_family_limits(ctx, f):
+    """The certificate IP-resource decoders accept a prefix exactly when its length is at most the family maximum
+    (a /32 or /128 host prefix, which builders produce, included)."""
+    from engine import orderlogic as OL
+    names = [(r"^Prefix::addr_len\(", "p"), (r"^AddressFamily::max_addr_len\(", "f")]
+
+    def label(r):
+        if r.startswith("result::Result::Ok"):
+            return "accept"
+        if r.startswith("result::Result::Err"):
+            return "reject"
+        return None
+    for fn in ("repository::resources::ipres::Prefix::parse_content_with_family", "repository::resources::ipres::AddressRange::check_len"):
+        b = f.body(fn)
+        if b is None:
+            ctx.missing("R-REG", short(fn), fn)
+            continue
+        ctx.saw_fn(fn)
+        if fn.endswith("check_len") and not outcome(b).fail_blocks and any(c.name == "min" for c in b.calls()):
+            # feature "compat": check_len clamps the length to the family maximum instead of rejecting (documented)
+            ctx.note("config %s: AddressRange::check_len clamps (feature compat) — family-limit table not applicable" % ctx.cfg)
+            continue
+        ok, det = OL.decide_table(b, K.sym_of(b), names, lambda e: "accept" if e["p"] <= e["f"] else "reject", label)
+        ctx.ob("R-REG", "%s:family-limit" % short(fn), ok,
+               "%s accepts a prefix iff its length ≤ the family maximum (on every ordering of the two numbers)" % short(fn),
                where=b.loc, detail=det)
